@@ -34,7 +34,7 @@ static uint64_t fingerprint(const OpResult& o, std::string* text = nullptr)
 
 static PlanOp gen_any_op(Rng& rng, bool thorough)
 {
-    std::vector<std::string> pk = keys_for({ "G1", "G2", "G3", "G4", "G5", "G6", "G7", "G8", "G9", "G10", "G11", "T1" });
+    std::vector<std::string> pk = keys_for({ "G1", "G2", "G3", "G4", "G5", "G6", "G7", "G8", "G9", "G10", "G11", "G12", "T1" });
     std::vector<std::string> rk = regex_keys();
     uint64_t k = rng.below(100);
     PlanOp op;
@@ -94,6 +94,7 @@ static Plan gen_c15(uint64_t seed, int64_t index, bool thorough)
     else if (k < 40) { p.mode = "sparse"; density = rng.range(1, 5); }
     else if (k < 80) { p.mode = "medium"; density = rng.range(6, 25); }
     else { p.mode = "dense"; density = rng.range(26, 60); }
+    p.share_streams = rng.chance(1, 2);       // each task logs all its calls to ONE long-lived std::ostream object
     bool same_parser = rng.chance(1, 2);      // bias: all tasks hammer one parser object
     std::string shared_key;
     for (int t = 0; t < nt; ++t)
@@ -213,6 +214,7 @@ static std::vector<Violation> case_c15(const Plan& p, CaseCtx& cx)
     {
         cx.st->add("mode." + p.mode);
         cx.st->add("tasks", int64_t(p.tasks.size()));
+        if (p.share_streams) cx.st->add("probe.calls_sharing_one_stream_object");
     }
 
     solo(after, ta);
